@@ -194,6 +194,47 @@ def rstep (s : RState) : RLabel → Option RState
     | .closedGrpc => some { s with ptr := PState.closed, cpc := upd s.cpc j .done }  -- cc.state.Store({nil, Unavailable})
     | .done => none
 
+/-! ### the connectivity state machine as environment: Connect() is the only way out of IDLE -/
+
+/-- who calls `conn.Connect()`: the code (every waitForReady whose first GetState answers Idle) or the seeded variant
+    C01-m10 (only the first one per connection, `connectRequested.CompareAndSwap`) -/
+inductive ConnectGuard | always | once
+  deriving DecidableEq, Repr
+
+structure Chan where
+  st : CS
+  /-- the once-guard's flag -/
+  requested : Bool
+  deriving DecidableEq, Repr
+
+inductive CallEnd | ready | waitsForever | endsWithCtx
+  deriving DecidableEq, Repr
+
+/-- one Stream()'s waitForReady on a reachable target: gRPC leaves IDLE only when asked to connect; once asked it goes
+    CONNECTING → READY; `dl` = the call has a deadline, `tested` = the result of WaitForStateChange is looked at
+    (the seeded variant C12-m9 ignores it) -/
+def waitCall (g : ConnectGuard) (dl tested reachable : Bool) (c : Chan) : CallEnd × Chan :=
+  match c.st with
+  | .ready => (.ready, c)
+  | .shutdown => (.endsWithCtx, c)
+  | .idle =>
+    let asks := g = .always || !c.requested
+    if asks then
+      if reachable then (.ready, { st := .ready, requested := true })
+      else (if dl && tested then .endsWithCtx else .waitsForever, { st := .transientFailure, requested := true })
+    else (if dl && tested then .endsWithCtx else .waitsForever, c)          -- WaitForStateChange(ctx, Idle): nothing will change it
+  | _ =>
+    if reachable then (.ready, { c with st := .ready })
+    else (if dl && tested then .endsWithCtx else .waitsForever, c)
+
+/-- READY → IDLE: target restart, GOAWAY, idle timeout -/
+def dropToIdle (c : Chan) : Chan := { c with st := .idle }
+
+/-- first call on a fresh channel, the channel falls back to IDLE, second call (no deadline) -/
+def secondCall (g : ConnectGuard) : CallEnd :=
+  let c1 := (waitCall g false true true { st := .idle, requested := false }).2
+  (waitCall g false true true (dropToIdle c1)).1
+
 /-- what the regenerated facts (extract/c16.go over grpcadapter/conn.go) must say: statements of `waitForReady`
     before the `for`, and inside its body, in source order -/
 def expectedWaitBeforeLoop : List String := ["GetState", "check:Idle", "Connect"]
